@@ -7,8 +7,8 @@
 
 static const char *const CNT[] = { "ws_success", "ws_shortage_initial", "ws_shortage_midfactor", "ws_singular", "lib_success", "fault_reported", "fault_not_reached",
     "query_checked", "expansions_0", "expansions_1", "expansions_2", "expansions_ge3", "ilu_cases", "scenario_identical", "scenario_insufficient_skipped", "align4", "exp_LUSUP", "exp_UCOL", "exp_LSUB", "exp_USUB",
-    "query_sideeffect_equil", NULL };
-enum { C_WOK, C_WINIT, C_WMID, C_WSING, C_LOK, C_FREP, C_FNOT, C_QUERY, C_E0, C_E1, C_E2, C_E3, C_ILU, C_IDENT, C_INSUF, C_AL4, C_XL, C_XU, C_XLS, C_XUS, C_QSIDE };
+    "query_sideeffect_equil", "ilu_capacity_sweep", NULL };
+enum { C_WOK, C_WINIT, C_WMID, C_WSING, C_LOK, C_FREP, C_FNOT, C_QUERY, C_E0, C_E1, C_E2, C_E3, C_ILU, C_IDENT, C_INSUF, C_AL4, C_XL, C_XU, C_XLS, C_XUS, C_QSIDE, C_CAPSWEEP };
 static const char *const RAT[] = { NULL };
 
 /* ------------------------------------------------------------------ arena */
@@ -99,7 +99,11 @@ static void run_once(const vcase *c, void *work, long lwork, outcome *O, xs *kee
     dmat B; make_rhs(T, &s->A_orig, 0, c->rhs, 1, &B); xs_set_rhs(s, &B, 0, 0);
     superlu_options_t opt;
     if (c->aux) { ilu_opts(&opt); opt.ColPerm = (colperm_t[]){ NATURAL, MMD_ATA, MMD_AT_PLUS_A, COLAMD, MY_PERMC }[c->colperm]; opt.DiagPivotThresh = c->u; opt.Equil = c->equil ? YES : NO; opt.RowPerm = NOROWPERM;
-                  if (c->aux == 2) { opt.ILU_FillFactor = c->tune[6]; opt.ILU_DropTol = 0.0; opt.ILU_DropRule = NODROP; } }   /* aux=2: the fill estimate also drives the ILU storage guess */
+                  if (c->aux == 2) { opt.ILU_FillFactor = c->tune[6]; opt.ILU_DropTol = 0.0; opt.ILU_DropRule = NODROP; }
+                  if (c->aux == 3) {   /* capacity sweep: the initial capacity of all four growable arrays is (int)(ILU_FillFactor * nnz(A)) = nnz(A) + c->lwork; only rules that do not read the fill factor */
+                      if (c->lwork > 3 * (long)s->S.nnz) { O->info = -777; if (!keep) xs_destroy(s); return; }
+                      opt.ILU_FillFactor = c->aux3 ? 30.0 : ((double)s->S.nnz + (double)c->lwork + 0.5) / (double)s->S.nnz;
+                      opt.ILU_DropRule = c->aux2 ? DROP_BASIC : NODROP; opt.ILU_DropTol = c->aux2 == 2 ? 0.5 : 1e-4; } }   /* aux=2: the fill estimate also drives the ILU storage guess */
     else xs_options(c, &opt, s);
     opt.Fact = DOFACT;
     s->work = work; s->lwork = lwork;
@@ -108,6 +112,7 @@ static void run_once(const vcase *c, void *work, long lwork, outcome *O, xs *kee
     O->info = s->info; O->glu_exp = s->Glu.num_expansions;
     if (s->info >= 0 && s->info <= c->n && c->aux != 1) {
         long init = (long)((double)c->tune[6] * (double)s->S.nnz);
+        if (c->aux == 3) init = c->aux3 ? 30L * s->S.nnz : (long)s->S.nnz + c->lwork;
         if ((long)s->Glu.nzlumax > init) WK_COUNT(C_XL);
         if ((long)s->Glu.nzumax > init) WK_COUNT(C_XU);
         if ((long)s->Glu.nzlmax > init) WK_COUNT(C_XLS);
@@ -262,19 +267,29 @@ static void set07N8(const int *d, vcase *c)    /* 8x8 bases in natural order: U 
     int e[10] = { d[0], 0, d[1], 0, 0, d[3], 0, d[4], 0, d[4] % 3 }; set07(e, c); c->aux = d[6] * 2;
     c->n = c->m = 8; c->pat = dev1_pattern(8, base_pattern(8, d[0]), d[5]); set_tune(c, TUNE_N8[d[2]]); c->fest = 1; c->tune[6] = 1;
 }
+static int cap_ndev = 3, cap_nrnd = 24;
+static void set07Cap(const int *d, vcase *c)  /* incomplete LU, every initial capacity nnz(A) .. 4 nnz(A) of the growable arrays: pattern tune type drop capacity */
+{
+    int e[10] = { 0, 0, 0, 0, 0, d[2], 0, 0, 0, 0 }; set07(e, c); c->aux = 3; c->aux2 = d[3]; c->lwork = d[4]; c->k = 0;
+    if (d[0] < 9 * cap_ndev) { c->n = c->m = 8; c->pat = dev1_pattern(8, base_pattern(8, d[0] / cap_ndev), d[0] % cap_ndev); c->colperm = 0; }
+    else { int q = d[0] - 9 * cap_ndev; c->n = c->m = 12; c->gen = 2; c->pat = (uint64_t)(q / 2) + 500; c->colperm = (q & 1) ? 3 : 0; }     /* generated 12 x 12 patterns, NATURAL and COLAMD */
+    set_tune(c, TUNE_N8[d[1]]); c->fest = 1; c->tune[6] = 1; c->fillb = (int[]){ 0xA5, 0x00, 0xFF }[d[4] % 3];
+}
 static void set07R(const int *d, vcase *c)     /* tall matrices through xgstrf are covered by C02; here: row storage + equilibration through the driver */
 { int e[10] = { d[0], d[1], 0, d[2], d[3], d[4], 0, d[5], d[6], 0 }; set07(e, c); c->stor = 1; c->equil = 1; c->vals = 4; }
 static const family F07Q[] = {
     { "DEV_1(BASE(8)) first 6 deviations, NATURAL order x vals2 x tune{1-col supernodes,(2,1,2..),(2,4,4..),(3,1,4..)} x type4 x scenario x fill estimate 1 x {LU, ILU with fill factor 1}", 7, { 9, 2, 4, 4, NSCEN, 6, 2 }, set07N8 },
     { "DEV_1(BASE(6)), first 10 deviations x vals2 x colperm2 x tune3 x type4 x {LU,ILU} x scenario(5 fill estimates + 15 workspace lengths x align2 x prefill3) x ws-fill-estimate{1,2,3}", 9, { 9, 10, 2, 2, 3, 4, 2, NSCEN, 3 }, set07q },
+    { "incomplete LU, every initial capacity nnz(A)..4*nnz(A) of the growable arrays (fractional fill factor): {DEV_1(BASE(8)) first 3 deviations NATURAL, 12 generated 12x12 patterns x {NATURAL,COLAMD}} x tune4 x type4 x {NODROP, BASIC 1e-4, BASIC .5} x capacity offset 0..159", 5, { 9 * 3 + 24, 4, 4, 3, 160 }, set07Cap },
 };
 static const family F07T[] = {
     { "DEV_1(BASE(8)), NATURAL order x vals2 x tune4 x type4 x scenario x fill estimate 1 x {LU, ILU with fill factor 1}", 7, { 9, 2, 4, 4, NSCEN, 65, 2 }, set07N8 },
     { "DEV_1(BASE(6)) x vals3 x colperm4 x tune8 x type4 x {LU,ILU} x scenario x ws-fill-estimate5 x heap-fill3", 10, { 9, 37, 3, 4, 8, 4, 2, NSCEN, 5, 3 }, set07 },
     { "row storage + equilibration: DEV_1(BASE(6)) x colperm4 x tune8 x type4 x scenario x fill5", 7, { 9, 37, 4, 8, 4, NSCEN, 5 }, set07R },
+    { "incomplete LU, every initial capacity nnz(A)..4*nnz(A) of the growable arrays (fractional fill factor): {DEV_1(BASE(8)) first 24 deviations NATURAL, 60 generated 12x12 patterns x {NATURAL,COLAMD}} x tune4 x type4 x {NODROP, BASIC 1e-4, BASIC .5} x capacity offset 0..239", 5, { 9 * 24 + 120, 4, 4, 3, 240 }, set07Cap },
 };
 static long sz_07(int tier) { return tier ? fam_total(F07T, NF(F07T)) : fam_total(F07Q, NF(F07Q)); }
-static void dec_07(int tier, long idx, vcase *c) { if (tier) fam_decode(F07T, NF(F07T), idx, c); else fam_decode(F07Q, NF(F07Q), idx, c); }
+static void dec_07(int tier, long idx, vcase *c) { cap_ndev = tier ? 24 : 3; cap_nrnd = tier ? 120 : 24; if (tier) fam_decode(F07T, NF(F07T), idx, c); else fam_decode(F07Q, NF(F07Q), idx, c); }
 static void desc_07(int tier, char *b, size_t cap) { if (tier) fam_describe(F07T, NF(F07T), b, cap); else fam_describe(F07Q, NF(F07Q), b, cap); }
 
 static long find_lmin(const vcase *c, vres *r)
@@ -293,6 +308,23 @@ static void run_C07(const vcase *c, vres *r)
     /* reference: library allocation, fill estimate 30, fresh blocks filled 0xA5 */
     /* aux=2 (ILU whose fill factor doubles as storage guess): the fill factor is a numerical option there, so the reference keeps it */
     if (c->aux == 2 && c->k < 5) { r->status = 2; return; }
+    if (c->aux == 3) {
+        vcase ref = *c; ref.aux3 = 1; vf_fill_byte = 0xA5; outcome base, O; char why[220];
+        run_once(&ref, NULL, 0, &base, NULL, r);
+        if (base.info == -777) { r->status = 2; return; }
+        if (base.info < 0 || base.info > n) { wk_fail(r, "baseline-failed", "reference run returned info=%ld", base.info); return; }
+        vf_fill_byte = c->fillb; vf_reset_case();
+        xs s; run_once(c, NULL, 0, &O, &s, r);
+        long grow = vf_expand_requests;
+        r->nontrivial = 1; r->outcome = fnv(0, &O.expansions, sizeof(int)); WK_COUNT(C_CAPSWEEP);
+        if (!same_outcome(&O, &base, n, why, sizeof why)) { wk_fail(r, "provenance", "incomplete LU with initial capacity nnz(A)+%ld: result differs from the ample-capacity run: %s", c->lwork, why); xs_destroy(&s); return; }
+        if (O.expansions != grow - 4) { wk_fail(r, "expansion-count", "stat->expansions=%d but the ledger saw %ld growth allocations beyond the initial four", O.expansions, grow - 4); xs_destroy(&s); return; }
+        verdict vv; memset(&vv, 0, sizeof vv);
+        if (check_LU_structure(T, &s.L, &s.U, n, n, 1, &vv)) { wk_fail(r, "structure", "capacity nnz(A)+%ld: %s", c->lwork, vv.msg); xs_destroy(&s); return; }
+        WK_COUNT(O.expansions == 0 ? C_E0 : O.expansions == 1 ? C_E1 : O.expansions == 2 ? C_E2 : C_E3);
+        xs_destroy(&s); WK_COUNT(C_IDENT);
+        return;
+    }
     vcase ref = *c; if (c->aux != 2) ref.tune[6] = 30; vf_fill_byte = 0xA5;
     outcome base, O; run_once(&ref, NULL, 0, &base, NULL, r);
     if (base.info < 0 || base.info > n) { wk_fail(r, "baseline-failed", "reference run returned info=%ld", base.info); return; }
